@@ -2,7 +2,7 @@ SPECIFICATION Spec
 CONSTANTS
   Buckets = {"b1", "b2"}
   Keys = {"x", "y"}
-  Vals = {1, 2}
+  Vals = {1, 2, 3}
   MaxOps = 4
   Depth = 4
 INVARIANT Emit
